@@ -38,7 +38,8 @@ def Dict(k, v): return ("Dict", k, v)
 def Opt(t): return ("Opt", t)
 VAR, LEXP, CON, WRAP, HNAME, BITS = ("Var",), ("LinExpr",), ("Constr",), ("Wrapper",), ("HelperName",), ("BitCount",)
 def VarDict(fam, key): return ("VarDict", fam, key)
-ERASED = (("Attr",), ("Wrapper",), ("Str",))        # parameters of these types do not appear in the Gallina signature
+BGRAPH, SELFOBJ, NODEDATA, EDGEDATA = ("BGraph",), ("SelfObject",), ("NodeDataView",), ("EdgeDataView",)
+ERASED = (("Attr",), ("Wrapper",), ("Str",), ("SelfObject",))        # parameters of these types do not appear in the Gallina signature
 EDGE = Tuple(NODE, NODE)
 DEDGE = Tuple(NODE, NODE, EDATA)
 NUMERIC = {INT: 0, NUM: 1, EXT: 2}
@@ -72,6 +73,15 @@ TARGETS = {
     "pwc": dict(file="flowpaths/utils/solverwrapper.py", cls="SolverWrapper", func="add_piecewise_constant_constraint",
                 params=[WRAP, VAR, VAR, List(Tuple(NUM, NUM)), List(NUM), HNAME], defaults=[], ret=NONE, emits=True),
 }
+# a method whose `self` is an object with typed attributes: inputs become parameters of the generated function, outputs
+# (attributes the method assigns) and, with graph=True, the nx.DiGraph `self` that the method fills become part of the result
+TARGETS["augment"] = dict(file="flowpaths/abstractsourcesinkgraph.py", cls="AbstractSourceSinkGraph", func="_augment_with_source_sink",
+                          params=[SELFOBJ], defaults=[], ret=NONE,
+                          selfobj=dict(inputs=[("base_graph", BGRAPH), ("additional_starts", Set(NODE)), ("additional_ends", Set(NODE)),
+                                               ("source", NODE), ("sink", NODE)],
+                                       outputs=[("source_edges", List(EDGE)), ("sink_edges", List(EDGE)), ("source_sink_edges", Set(EDGE))],
+                                       graph=True))
+
 # name_prefix=f"<prefix>{name}" of self.add_variables -> variable family of Lin.v (the table the E1 harness uses as well)
 PREFIX_FAMILY = {"binary_": "fBit", "comp_": "fComp", "z_": "fZ"}
 
@@ -162,6 +172,7 @@ def gty(t):
     if t == NODE: return "N"
     if t == EDATA: return "(option Q)"
     if t == GRAPH: return "pygraph"
+    if t == BGRAPH: return "bgraph"
     if t in (VAR, HNAME): return "var"
     if t == LEXP: return "lexp"
     if t == CON: return "lcon"
@@ -182,6 +193,7 @@ def dflt(t):
     if t == NODE: return "0%N"
     if t == EDATA: return "None"
     if t == GRAPH: return "py_empty_graph"
+    if t == BGRAPH: return "(mk_bgraph [] [])"
     if t in (VAR, HNAME): return "(V 0%N [])"
     if t == LEXP: return "(LConst (0#1)%Q)"
     if t == BITS: return "0%Z"
@@ -277,11 +289,22 @@ class Fn:
             raise Unsupported("signature: default values %s, the embedding declares %s" % ([ast.unparse(d) for d in a.defaults], self.spec["defaults"]), f)
         self.params = [x.arg for x in a.args]
         self.ptype = dict(zip(self.params, self.spec["params"]))
+        self.selfobj = self.spec.get("selfobj")
+        self.sparam = self.params[0] if self.selfobj else None
+        self.s_in = dict(self.selfobj["inputs"]) if self.selfobj else {}
+        self.s_out = dict(self.selfobj["outputs"]) if self.selfobj else {}
+        self.builds = bool(self.selfobj and self.selfobj.get("graph"))
         self.emits = bool(self.spec.get("emits"))
         self.callees = []              # other translated targets this function calls (their Gen modules are required)
         if self.emits:
             check_primitives(self.classdef)
         self.collect_names()
+
+    def self_attr(self, e):
+        """attribute name if e is `self.<attr>` on a self-object parameter, else None"""
+        if self.sparam and isinstance(e, ast.Attribute) and isinstance(e.value, ast.Name) and e.value.id == self.sparam:
+            return e.attr
+        return None
 
     # -------------------------------------------------------------------------------- names
     def collect_names(self):
@@ -296,6 +319,8 @@ class Fn:
         self.assign_value = {}   # name -> value node of its (last seen) plain top-level assignment
         def walk(stmts, depth=0):
             for s in stmts:
+                if isinstance(s, ast.Assign) and len(s.targets) == 1 and self.self_attr(s.targets[0]) in self.s_out:
+                    continue          # assignment to an output attribute of self
                 if isinstance(s, ast.Assign):
                     if len(s.targets) != 1 or not isinstance(s.targets[0], ast.Name):
                         raise Unsupported("assignment target (only `name = expr`)", s)
@@ -392,6 +417,9 @@ class Fn:
         L = self.expr(e.left, env); R = self.expr(e.right, env)
         if L[1] == STR and R[1] == STR and op == "add":
             return "tt", STR, L[2] + R[2]
+        if L[1][0] == "List" and R[1][0] == "List" and op == "add":
+            ty = join(L[1], R[1], e)
+            return "(app %s %s)" % (L[0], R[0]), ty, L[2] + R[2]
         lin = (VAR, LEXP)
         if L[1] in lin or R[1] in lin:      # arithmetic of solver expressions: mirrored, given meaning by PyLin.v
             if op == "mul":
@@ -460,6 +488,9 @@ class Fn:
     def member(self, L, R, node):
         (lt, lty, lg), (rt, rty, rg) = L, R
         g = lg + rg
+        if rty == SELFOBJ and self.builds:
+            if lty != NODE: raise Unsupported("membership of a value of type %s in the graph" % show(lty), node)
+            return "(py_m_has_node (o_graph s) %s)" % lt, g
         if rty == EDATA:
             if lty != ATTR: raise Unsupported("membership of a non-attribute key in an edge-data dict", node)
             return "(py_is_some %s)" % rt, g
@@ -511,7 +542,30 @@ class Fn:
         raise Unsupported("subscript on a value of type %s" % show(bty), e)
 
     def e_Attribute(self, e, env):
+        a = self.self_attr(e)
+        if a is not None and self.sparam not in env["bound"]:
+            if a in self.s_in: return "in_" + a, self.s_in[a], []
+            if a in self.s_out:
+                if "self." + a not in env["defined"]: raise Unsupported("read of self.%s where it may be unassigned" % a, e)
+                return "(at_%s s)" % a, self.s_out[a], []
+            raise Unsupported("attribute self.%s (not in the typed embedding of the object)" % a, e)
+        if self.selfobj:
+            t, ty, g = self.expr(e.value, env)
+            if ty == BGRAPH and e.attr == "nodes": return "(b_nodes %s)" % t, List(NODE), g       # iterating G.nodes
+            if ty == BGRAPH and e.attr == "edges": return "(b_edges %s)" % t, List(EDGE), g
         raise Unsupported("attribute access outside a supported method call", e)
+
+    def e_List(self, e, env):
+        if e.elts: raise Unsupported("list literal with elements", e)
+        return "[]", List(BOT), []
+
+    def e_IfExp(self, e, env):
+        t, ty, g = self.expr(e.test, env)
+        if ty != BOOL: raise Unsupported("condition of type %s" % show(ty), e.test)
+        a, aty, ag = self.expr(e.body, env); b, bty, bg = self.expr(e.orelse, env)
+        if ag or bg: raise Unsupported("partial operation evaluated conditionally (branch of a conditional expression)", e)
+        rty = join(aty, bty, e)
+        return "(if %s then %s else %s)" % (t, coerce(a, aty, rty, e), coerce(b, bty, rty, e)), rty, g
 
     def is_pairs_idiom(self, e, env):
         """[(p[i], p[i+1]) for i in range(len(p) - 1)] with p a name of list type; returns (term, elem type, guards) or None"""
@@ -651,6 +705,21 @@ class Fn:
             if None in kw: raise Unsupported("**kwargs in a call", e)
             def data_true():
                 return set(kw) == {"data"} and isinstance(kw["data"], ast.Constant) and kw["data"].value is True
+            if rty == BGRAPH:
+                if m in ("nodes", "edges") and not e.args and (not kw or data_true()):
+                    if kw: return "(b_%s %s)" % (m, recv), (NODEDATA if m == "nodes" else EDGEDATA), rg     # only as argument of add_*_from
+                    return "(b_%s %s)" % (m, recv), List(NODE if m == "nodes" else EDGE), rg
+                if m in ("in_degree", "out_degree") and len(e.args) == 1 and not kw:
+                    v, vty, vg = self.expr(e.args[0], env)
+                    if vty != NODE: raise Unsupported("%s of a non-node" % m, e)
+                    return "(py_b_%s %s %s)" % (m, recv, v), INT, rg + vg
+                raise Unsupported("graph method call .%s with these arguments" % m, e)
+            if rty == SELFOBJ and self.builds:
+                if m in ("out_edges", "in_edges") and len(e.args) == 1 and not kw:
+                    v, vty, vg = self.expr(e.args[0], env)
+                    if vty != NODE: raise Unsupported("%s of a non-node" % m, e)
+                    return "(py_m_%s (o_graph s) %s)" % (m, v), List(EDGE), rg + vg
+                raise Unsupported("call of self.%s in an expression" % m, e)
             if rty == WRAP:
                 if m == "quicksum" and self.emits and len(e.args) == 1 and not kw:
                     t, ty, g = self.expr(e.args[0], env)
@@ -804,17 +873,40 @@ class Fn:
         if callee not in self.callees: self.callees.append(callee)
         return self.guarded(g, "py_emit_call (fun s => Gen_%s.fn %s) emit_out" % (callee, " ".join(args)))
 
+    def graph_call_stmt(self, e, env):
+        """self.add_edge(u, v) / self.add_nodes_from(X) / self.add_edges_from(X) on the graph the method fills"""
+        if not (isinstance(e, ast.Call) and self.self_attr(e.func) is not None and self.sparam not in env["bound"]): return None
+        m = e.func.attr
+        if m not in ("add_edge", "add_node", "add_nodes_from", "add_edges_from"): return None
+        if e.keywords: raise Unsupported("keyword arguments (edge / node attributes) of self.%s" % m, e)
+        args = [self.expr(a, env) for a in e.args]; g = sum((a[2] for a in args), [])
+        tys = [a[1] for a in args]
+        if m == "add_edge" and tys == [NODE, NODE]: upd = "py_m_add_edge (o_graph s) %s %s" % (args[0][0], args[1][0])
+        elif m == "add_node" and tys == [NODE]: upd = "py_m_add_node (o_graph s) %s" % args[0][0]
+        elif m == "add_nodes_from" and len(tys) == 1 and tys[0] in (NODEDATA, List(NODE)): upd = "py_m_add_nodes_from (o_graph s) %s" % args[0][0]
+        elif m == "add_edges_from" and len(tys) == 1 and tys[0] in (EDGEDATA, List(EDGE)): upd = "py_m_add_edges_from (o_graph s) %s" % args[0][0]
+        else: raise Unsupported("self.%s with arguments of type %s" % (m, ", ".join(show(t) for t in tys)), e)
+        return self.guarded(g, "py_assign (fun s => set_o_graph (%s) s)" % upd)
+
     def stmt(self, s, env):
         """returns (gallina stmt term, falls_through: bool)"""
         if isinstance(s, ast.Expr):
             if isinstance(s.value, ast.Constant) and isinstance(s.value.value, str): return None, True   # docstring / string statement
             if self.emits and self.self_call(s.value, env) is not None:
                 return self.emit_call_stmt(s.value, env), True
+            if self.builds and self.graph_call_stmt(s.value, env) is not None:
+                return self.graph_call_stmt(s.value, env), True
             if is_logging_call(s.value):
                 g = self.dropped_guards(s.value, env)
                 return (self.guarded(g, "py_skip") if g else None), True
             raise Unsupported("expression statement", s)
         if isinstance(s, ast.Pass): return None, True
+        if isinstance(s, ast.Assign) and len(s.targets) == 1 and self.self_attr(s.targets[0]) in self.s_out:
+            a = self.self_attr(s.targets[0]); want = self.s_out[a]
+            t, ty, g = self.expr(s.value, env)
+            if join(ty, want, s) != want: raise Unsupported("self.%s assigned a value of type %s, the embedding declares %s" % (a, show(ty), show(want)), s)
+            env["defined"] = env["defined"] | {"self." + a}
+            return self.guarded(g, "py_assign (fun s => set_at_%s %s s)" % (a, coerce(t, ty, want, s))), True
         if isinstance(s, ast.Assign) and self.emits and self.self_call(s.value, env) == "add_variables":
             cols, fam, nm, key, g = self.add_variables_call(s.value, env)
             a = self.assign_to(s.targets[0].id, "(%s, %s)" % (fam, nm), VarDict(fam, key), env, s)
@@ -904,7 +996,7 @@ class Fn:
         for n in self.locals:
             if n not in vt or has_bot(vt[n]):
                 raise Unsupported("type of local %r could not be determined (%s)" % (n, show(vt.get(n, BOT))), self.fdef)
-        if ret == BOT and self.emits: ret = NONE        # an emitter falls off its end (returns None)
+        if ret == BOT and (self.emits or self.selfobj): ret = NONE        # an emitter falls off its end (returns None)
         if ret == BOT: raise Unsupported("function has no return statement", self.fdef)
         if ret != self.spec["ret"]:
             raise Unsupported("return type %s, the typed embedding declares %s" % (show(ret), show(self.spec["ret"])), self.fdef)
@@ -939,6 +1031,8 @@ class Fn:
         fields = [(self.xname[n], gty(vt[n])) for n in order]
         if self.emits:       # the columns and rows handed to the solver so far, in order
             fields += [("o_cols", "(list col)"), ("o_rows", "(list row)")]
+        if self.builds: fields += [("o_graph", "mgraph")]
+        for a, ty in (self.selfobj["outputs"] if self.selfobj else []): fields += [("at_" + a, gty(ty))]
         fields = fields or [("x_unit", "unit")]
         rty = "unit" if ret == NONE else gty(ret)
         L.append("Record st := mk_st { " + "; ".join("%s : %s" % f for f in fields) + " }.")
@@ -948,12 +1042,15 @@ class Fn:
         if self.emits:
             L.append("Definition emit_out (cs : list col) (rs : list row) (s : st) : st := set_o_rows (o_rows s ++ rs) (set_o_cols (o_cols s ++ cs) s).")
         gparams = [(self.aname[p], gty(self.ptype[p])) for p in self.params if self.ptype[p] not in ERASED]
+        gparams += [("in_" + a, gty(ty)) for a, ty in (self.selfobj["inputs"] if self.selfobj else [])]
         binder = " ".join("(%s : %s)" % gp for gp in gparams)
         names = " ".join(gp[0] for gp in gparams)
         init = []
         for n in order:
             init.append(self.aname[n] if n in self.state_params else dflt(vt[n]))
         if self.emits: init += ["[]", "[]"]
+        if self.builds: init += ["py_m_empty"]
+        for a, ty in (self.selfobj["outputs"] if self.selfobj else []): init += [dflt(ty)]
         if not init: init = ["tt"]
         L.append("Definition init_st %s : st := mk_st %s." % (binder, " ".join(init)))
         L.append("")
@@ -963,6 +1060,10 @@ class Fn:
         if self.emits:
             L.append("Definition fn %s : result %s * list col * list row :=" % (binder, rty))
             L.append("  let r := body %s (init_st %s) in (py_outcome (fst r), o_cols (snd r), o_rows (snd r))." % (names, names))
+        elif self.selfobj:     # the outcome, the graph the method filled, and the attributes it assigned
+            outs = (["o_graph"] if self.builds else []) + ["at_" + a for a, _ in self.selfobj["outputs"]]
+            L.append("Definition fn %s :=" % binder)
+            L.append("  let r := body %s (init_st %s) in (py_outcome (fst r), %s)." % (names, names, ", ".join("%s (snd r)" % o for o in outs)))
         else:
             L.append("Definition fn %s : result %s := py_run (body %s) (init_st %s)." % (binder, rty, names, names))
         L.append("")
